@@ -201,7 +201,8 @@ impl<'tcx> Cx<'tcx> {
                             let rd = inst.def_id();
                             resolved_local = rd.is_local();
                             let kind = match inst.def { ty::InstanceKind::Item(_) => "item", ty::InstanceKind::Virtual(..) => "virtual", ty::InstanceKind::ClosureOnceShim{..} => "closure_once_shim", ty::InstanceKind::FnPtrShim(..) => "fnptr_shim", ty::InstanceKind::DropGlue(..) => "drop_glue", ty::InstanceKind::CloneShim(..) => "clone_shim", _ => "other" };
-                            resolved = format!("{{\"path\":{},\"kind\":{},\"local\":{}}}", esc(&self.stable_path(rd)), esc(kind), resolved_local);
+                            let rg: Vec<String> = inst.args.iter().map(|a| esc(&ty::print::with_no_trimmed_paths!(format!("{}", a)))).collect();
+                            resolved = format!("{{\"path\":{},\"kind\":{},\"local\":{},\"gargs\":[{}]}}", esc(&self.stable_path(rd)), esc(kind), resolved_local, rg.join(","));
                         }
                         _ => {}
                     }
@@ -261,6 +262,15 @@ impl<'tcx> Cx<'tcx> {
                 gg = x.parent.map(|p| tcx.generics_of(p));
             }
             let _ = write!(s, ",\"generics\":[{}]", names.join(","));
+            // the same parameters in substitution order (parent first), aligned with call-site generic arguments
+            let mut ord: Vec<(u32, String)> = Vec::new();
+            let mut gg = Some(g);
+            while let Some(x) = gg {
+                for p in &x.own_params { ord.push((p.index, esc(&format!("{}:{}", match p.kind { ty::GenericParamDefKind::Lifetime => "lt", ty::GenericParamDefKind::Type{..} => "ty", ty::GenericParamDefKind::Const{..} => "const" }, p.name)))); }
+                gg = x.parent.map(|p| tcx.generics_of(p));
+            }
+            ord.sort();
+            let _ = write!(s, ",\"generics_ord\":[{}]", ord.iter().map(|x| x.1.clone()).collect::<Vec<_>>().join(","));
         }
         s.push('}');
         s
